@@ -757,7 +757,7 @@ EXCH_FLAGS = ["q_jura_sell_triggers_inverted"]
 
 def gen_suite(prop, tier, rng):
     kinds = PROJ[prop][0]
-    n = {"quick": 120, "thorough": 2500}[tier]
+    n = tier_size(tier, 120, 2500)
     scs = []
     for i in range(n):
         mal = i % 6 == 5
